@@ -6,6 +6,7 @@ import vrt_runner, mu_common
 PID = "C01"
 PROP_V = ["Props/Properties_C01.v", "Props/Properties_C01w.v"]
 GEN_MODULES = ["Consts", "Sites"]
+FLOW_FILES = ['mu.c', 'mu_wait.c']
 REPLAY_HINT = "VRT_SEED=<seed> [env] _work/h/<scenario>  (deterministic: same seed, same schedule); add VRT_TRACE=<file> for the step trace"
 PARTIAL = ["C01_exclusion (MuModel) and C01w_exclusion (MuWaitModel: + nsync_mu_wait_with_deadline incl. the timeout re-acquisition with its "
            "frozen-word window, unlock_slow's conversion to a writer, unlock_without_wakeup) are theorems; the re-acquisitions inside "
